@@ -60,7 +60,9 @@ type snap struct {
 }
 
 type sys struct {
-	name string // MemFS | OrefaFS
+	name string // MemFS | OrefaFS, Linux-typed; MemFS@Windows | OrefaFS@Windows, Windows-typed
+	kind string // MemFS | OrefaFS
+	win  bool   // the base emulates Windows (build tag avfs_setostype)
 	tier string
 	ops  []opDesc
 
@@ -69,7 +71,12 @@ type sys struct {
 	f        [2]slot
 	sub      subSlot
 
-	fullCheck bool // Reset also compares base and twin with the full lib/fsx dump
+	fullCheck   bool // Reset also compares base and twin with the full lib/fsx dump
+	twinChecked bool // base and twin were compared after a construction in this process
+
+	digest     string // digest of digestOf, see key
+	digestOf   snap
+	haveDigest bool
 
 	rnd      int
 	lastKey  string
@@ -82,22 +89,39 @@ func (s *sys) OpString(i int) string { return s.ops[i].String() }
 func (s *sys) Close()                {}
 func (s *sys) Key() string           { return s.lastKey }
 
-// setupPaths is the tree every base holds; every node gets fsx.FixedTime.
-func build(name string) (hooked, snap, error) {
-	dirs := []avfs.DirInfo{{Path: "/tmp", Perm: 0o777}}
+// build returns a base holding the tree every base holds; every node gets
+// fsx.FixedTime. A Windows-typed base holds the same tree on its default
+// volume and, where the file system manages volumes, a second volume with a
+// directory and a file.
+//
+// dump = false: the snapshot is not taken (and the times are not checked).
+func build(name string, dump bool) (hooked, snap, error) {
+	kind, win := sysKind(name)
+	sp := func(pth string) string { return spell(win, pth) }
+	root := sp("/")
+	dirs := []avfs.DirInfo{{Path: sp("/tmp"), Perm: 0o777}}
+
+	ost := avfs.OsLinux
+	if win {
+		ost = avfs.OsWindows
+	}
 
 	var v hooked
 
 	k, msg := fsx.Guard(func() {
-		switch name {
+		switch kind {
 		case "MemFS":
-			v = memfs.NewWithOptions(&memfs.Options{OSType: avfs.OsLinux, SystemDirs: dirs})
+			v = memfs.NewWithOptions(&memfs.Options{OSType: ost, SystemDirs: dirs})
 		case "OrefaFS":
-			v = orefafs.NewWithOptions(&orefafs.Options{OSType: avfs.OsLinux, SystemDirs: dirs})
+			v = orefafs.NewWithOptions(&orefafs.Options{OSType: ost, SystemDirs: dirs})
 		}
 	})
 	if k != "" || v == nil {
 		return nil, snap{}, fmt.Errorf("constructor of %s: %s %s", name, k, msg)
+	}
+
+	if got := v.OSType(); got != ost {
+		return nil, snap{}, fmt.Errorf("constructor of %s produced OS type %v: the driver must be built with the tag avfs_setostype (see the TAGS case of ./check)", name, got)
 	}
 
 	var (
@@ -112,23 +136,23 @@ func build(name string) (hooked, snap, error) {
 	}
 
 	k, msg = fsx.Guard(func() {
-		// the OrefaFS root is not addressable (Chdir("/") fails there); its
-		// constructor already starts in "/"
-		if e := v.Chdir("/"); e != nil && v.CurDir() != "/" {
+		// the OrefaFS root is not addressable (Chdir to it fails there); its
+		// constructor already starts in it
+		if e := v.Chdir(root); e != nil && v.CurDir() != root {
 			step("Chdir", e)
 		}
 
 		step("SetUMask", v.SetUMask(0o022))
-		step("MkdirAll", v.MkdirAll("/d/e", 0o755))
-		step("WriteFile f", v.WriteFile("/d/f", []byte("data"), 0o644))
-		step("Link", v.Link("/d/f", "/d/h"))
-		step("WriteFile g", v.WriteFile("/d/e/g", []byte("gg"), 0o600))
+		step("MkdirAll", v.MkdirAll(sp("/d/e"), 0o755))
+		step("WriteFile f", v.WriteFile(sp("/d/f"), []byte("data"), 0o644))
+		step("Link", v.Link(sp("/d/f"), sp("/d/h")))
+		step("WriteFile g", v.WriteFile(sp("/d/e/g"), []byte("gg"), 0o600))
 
 		nodes := []string{"/d/e/g", "/d/e", "/d/f", "/d", "/tmp"}
 
-		if name == "MemFS" {
-			step("Symlink s", v.Symlink("f", "/d/s"))
-			step("Symlink sd", v.Symlink("e", "/d/sd"))
+		if kind == "MemFS" {
+			step("Symlink s", v.Symlink("f", sp("/d/s")))
+			step("Symlink sd", v.Symlink("e", sp("/d/sd")))
 
 			nodes = append(nodes, "/")
 
@@ -137,8 +161,27 @@ func build(name string) (hooked, snap, error) {
 			}
 		}
 
+		if hasVol2(name) {
+			vm, ok := v.(avfs.VolumeManager)
+			if !ok {
+				step("VolumeAdd", fmt.Errorf("%T does not manage volumes", v))
+
+				return
+			}
+
+			step("VolumeAdd", vm.VolumeAdd(vol2))
+			step("Mkdir "+vol2Dir, v.Mkdir(vol2Dir, 0o755))
+			step("WriteFile "+vol2File, v.WriteFile(vol2File, []byte("ww"), 0o644))
+
+			nodes = append(nodes, vol2File, vol2Dir, vol2Root)
+		}
+
 		for _, n := range nodes {
-			step("Chtimes "+n, v.Chtimes(n, fsx.FixedTime, fsx.FixedTime))
+			step("Chtimes "+sp(n), v.Chtimes(sp(n), fsx.FixedTime, fsx.FixedTime))
+		}
+
+		if !dump {
+			return
 		}
 
 		// every node must now carry the fixed time (otherwise twin comparisons
@@ -146,14 +189,28 @@ func build(name string) (hooked, snap, error) {
 		// (the time of a symbolic link itself cannot be set through the API)
 		sn.v = v.VerifDump()
 		sn.api = apiDump(v, sn.v)
+		fixed := fmt.Sprintf(" t%d ", fsx.FixedTime.UnixNano())
 
 		for _, l := range sn.api {
-			if l == "/ !lstat:ENOENT" && name == "OrefaFS" {
+			if strings.HasPrefix(l, root+" !lstat:") && kind == "OrefaFS" {
 				continue // the OrefaFS root is not addressable
 			}
 
-			if strings.Contains(l, " !") || (!isLinkLine(l) && !strings.Contains(l, fmt.Sprintf(" t%d", fsx.FixedTime.UnixNano()))) {
+			if strings.Contains(l, " !") || (!isLinkLine(l) && !strings.Contains(l, fixed)) {
 				step("fixed mtimes", fmt.Errorf("unexpected dump line %q", l))
+			}
+		}
+
+		// the snapshot must cover every volume
+		if hasVol2(name) {
+			seen := false
+
+			for _, l := range sn.v {
+				seen = seen || dumpPath(l) == vol2File
+			}
+
+			if !seen {
+				step("volumes", fmt.Errorf("the internal dump does not show %s", vol2File))
 			}
 		}
 	})
@@ -164,18 +221,27 @@ func build(name string) (hooked, snap, error) {
 	return v, sn, err
 }
 
-// apiRoots: MemFS is dumped from "/"; the OrefaFS root is not addressable, so
-// its top-level entries (taken from the internal dump) are the roots.
+// isRootPath: "/", or the root directory of a volume (`C:\`).
+func isRootPath(pth string) bool {
+	return pth == "/" || (len(pth) == 3 && pth[1] == ':' && pth[2] == '\\')
+}
+
+// apiRoots: MemFS is dumped from the root directory of every volume ("/" when
+// Linux-typed); the OrefaFS root is not addressable, so its top-level entries
+// (taken from the internal dump) are the roots.
 func apiRoots(v hooked, name string) []string {
-	if name == "MemFS" {
-		return []string{"/"}
-	}
+	kind, _ := sysKind(name)
+	sep := string(v.PathSeparator())
 
 	var roots []string
 
 	for _, l := range v.VerifDump() {
 		pth := dumpPath(l)
-		if len(pth) > 1 && strings.LastIndex(pth, "/") == 0 {
+
+		switch {
+		case kind == "MemFS" && isRootPath(pth):
+			roots = append(roots, pth)
+		case kind != "MemFS" && !isRootPath(pth) && strings.Count(pth, sep) == 1:
 			roots = append(roots, pth)
 		}
 	}
@@ -224,18 +290,27 @@ func apiDump(v hooked, lines []string) []string {
 			t = "o"
 		}
 
+		// "<path> <type> <mode> <uid>:<gid> t<mtime> sz<size> n<links>" (taken around every call: no fmt)
 		st := v.ToSysStat(fi)
-		out = append(out, fmt.Sprintf("%s %s %s %d:%d t%d sz%d n%d", pth, t, fsx.ModeString(m), st.Uid(), st.Gid(), fi.ModTime().UnixNano(), fi.Size(), st.Nlink()))
+		b := make([]byte, 0, len(pth)+64)
+		b = append(append(append(b, pth...), ' '), t...)
+		b = append(append(b, ' '), fsx.ModeString(m)...)
+		b = strconv.AppendInt(append(b, ' '), int64(st.Uid()), 10)
+		b = strconv.AppendInt(append(b, ':'), int64(st.Gid()), 10)
+		b = strconv.AppendInt(append(b, " t"...), fi.ModTime().UnixNano(), 10)
+		b = strconv.AppendInt(append(b, " sz"...), fi.Size(), 10)
+		b = strconv.AppendUint(append(b, " n"...), st.Nlink(), 10)
+		out = append(out, string(b))
 	}
 
 	return out
 }
 
-// isLinkLine reports whether an fsx.Dump line describes a symbolic link.
+// isLinkLine reports whether a dump line (path, type, ...) describes a symbolic link.
 func isLinkLine(l string) bool {
-	f := strings.Fields(l)
+	_, rest, _ := strings.Cut(l, " ")
 
-	return len(f) > 1 && f[1] == "l"
+	return rest == "l" || strings.HasPrefix(rest, "l ")
 }
 
 // maskLinkTimes replaces the mtime of symbolic links (creation time: differs
@@ -260,9 +335,10 @@ func dumpPath(line string) string {
 		return line
 	}
 
+	// directories are dumped with a trailing separator: a root directory keeps it
 	pth := line[:i]
-	if len(pth) > 1 {
-		pth = strings.TrimSuffix(pth, "/")
+	if !isRootPath(pth) {
+		pth = strings.TrimSuffix(strings.TrimSuffix(pth, "/"), `\`)
 	}
 
 	return pth
@@ -276,11 +352,15 @@ func (s *sys) Reset() error {
 
 	var sn, tsn snap
 
-	if s.base, sn, err = build(s.name); err != nil {
+	// the construction is deterministic: the twin is dumped and compared with
+	// the base after the first construction of every process (and by the probe)
+	cmpTwin := s.fullCheck || !s.twinChecked
+
+	if s.base, sn, err = build(s.name, true); err != nil {
 		return err
 	}
 
-	if s.tw, tsn, err = build(s.name); err != nil {
+	if s.tw, tsn, err = build(s.name, cmpTwin); err != nil {
 		return err
 	}
 
@@ -289,8 +369,12 @@ func (s *sys) Reset() error {
 	s.sub = subSlot{}
 	s.haveSnap = false
 
-	if a, b := append(append([]string{}, sn.v...), maskLinkTimes(sn.api)...), append(append([]string{}, tsn.v...), maskLinkTimes(tsn.api)...); strings.Join(a, "\n") != strings.Join(b, "\n") {
-		return fmt.Errorf("base and twin differ after setup: %s", fsx.DiffLines(a, b))
+	if cmpTwin {
+		if a, b := append(append([]string{}, sn.v...), maskLinkTimes(sn.api)...), append(append([]string{}, tsn.v...), maskLinkTimes(tsn.api)...); strings.Join(a, "\n") != strings.Join(b, "\n") {
+			return fmt.Errorf("base and twin differ after setup: %s", fsx.DiffLines(a, b))
+		}
+
+		s.twinChecked = true
 	}
 
 	if s.fullCheck {
@@ -300,7 +384,7 @@ func (s *sys) Reset() error {
 		}
 
 		for _, l := range a {
-			if strings.Contains(l, " !") && !(s.name == "OrefaFS" && strings.HasPrefix(l, "/ !")) {
+			if strings.Contains(l, " !") && !(s.kind == "OrefaFS" && strings.HasPrefix(l, spell(s.win, "/")+" !")) {
 				return fmt.Errorf("setup: full dump of the base reports %q", l)
 			}
 		}
@@ -365,7 +449,13 @@ func viewState(v hooked) string {
 func (s *sys) key(sn snap) string {
 	var b strings.Builder
 
-	b.WriteString(hash(strings.Join(sn.v, "\n"), strings.Join(maskLinkTimes(sn.api), "\n")))
+	// the snapshot is the same around nearly every call: its digest is kept
+	if !s.haveDigest || !equalLines(sn.v, s.digestOf.v) || !equalLines(sn.api, s.digestOf.api) {
+		s.digest = hash(strings.Join(sn.v, "\n"), strings.Join(maskLinkTimes(sn.api), "\n"))
+		s.digestOf, s.haveDigest = sn, true
+	}
+
+	b.WriteString(s.digest)
 	b.WriteString(" base{" + viewState(s.base) + "}")
 
 	for i := range s.f {
@@ -487,6 +577,20 @@ func parseDump(lines []string) map[string]dumpEnt {
 	return m
 }
 
+func equalLines(a, b []string) bool {
+	if len(a) != len(b) {
+		return false
+	}
+
+	for i := range a {
+		if a[i] != b[i] {
+			return false
+		}
+	}
+
+	return true
+}
+
 func stripMtime(l string) string {
 	f := strings.Fields(l)
 	for i, x := range f {
@@ -501,6 +605,10 @@ func stripMtime(l string) string {
 // changeClass names what differs between two snapshots of the base:
 // new-entry | removed-entry | type | content | mode | owner | nlink | mtime | api-visible.
 func changeClass(a, b snap) (class, diff string) {
+	if equalLines(a.v, b.v) && equalLines(a.api, b.api) {
+		return "", ""
+	}
+
 	set := map[string]bool{}
 	am, bm := parseDump(a.v), parseDump(b.v)
 
@@ -588,14 +696,23 @@ func changeClass(a, b snap) (class, diff string) {
 // ----------------------------------------------------------------------------
 
 // pathClass classifies a path operand on the twin side of the receiver (never
-// on the code under test): empty | [rel:]root|dir|file|file(links)|symlink|missing|err:<kind>.
-func pathClass(tw avfs.VFS, pth string) string {
+// on the code under test): empty | [rel:|rooted:|vol2:]root|dir|file|file(links)|symlink|missing|err:<kind>
+// (rooted: a Windows path without volume; vol2: a path of the second volume).
+func pathClass(tw avfs.VFS, win bool, pth string) string {
 	if pth == "" {
 		return "empty"
 	}
 
 	pre := ""
-	if !strings.HasPrefix(pth, "/") {
+
+	switch {
+	case qualified(win, pth):
+		if win && !strings.HasPrefix(pth, winVolume) {
+			pre = "vol2:"
+		}
+	case win && strings.HasPrefix(pth, `\`):
+		pre = "rooted:"
+	default:
 		pre = "rel:"
 	}
 
@@ -603,8 +720,8 @@ func pathClass(tw avfs.VFS, pth string) string {
 		return pre + "?"
 	}
 
-	if pth == "/" {
-		return "root"
+	if isRootPath(pth) {
+		return pre + "root"
 	}
 
 	cl := "?"
@@ -633,15 +750,15 @@ func pathClass(tw avfs.VFS, pth string) string {
 	return pre + cl
 }
 
-func variantOf(tw avfs.VFS, o opDesc) string {
+func variantOf(tw avfs.VFS, win bool, o opDesc) string {
 	var parts []string
 
 	for _, a := range o.Args {
 		switch a.K {
 		case "path":
-			parts = append(parts, pathClass(tw, a.S))
+			parts = append(parts, pathClass(tw, win, a.S))
 		case "finfo":
-			parts = append(parts, "info("+pathClass(tw, a.S)+")")
+			parts = append(parts, "info("+pathClass(tw, win, a.S)+")")
 		default:
 			parts = append(parts, a.String())
 		}
@@ -728,7 +845,7 @@ func (s *sys) Step(op int) bfs.StepResult {
 
 	_, _ = fsx.Guard(func() { idm, twIdm = s.base.Idm(), s.tw.Idm() })
 
-	variant := variantOf(twHelperOrNil(twHelper), o)
+	variant := variantOf(twHelperOrNil(twHelper), s.win, o)
 
 	// --- snapshot before
 	before := s.lastSnap
@@ -835,7 +952,7 @@ func (s *sys) Step(op int) bfs.StepResult {
 			notRefused = true
 
 			add("not-refused", what, detail{Expected: "non-nil error with errors.Is(err, fs.ErrPermission)", Observed: "nil error"})
-		case errors.Is(real.Err, fs.ErrPermission):
+		case s.refusal(o, real.Err):
 		case anyErr:
 			// invalid handle (returned together with an error): any error will do
 		case closedOK && real.Kind == "closed":
@@ -904,7 +1021,8 @@ func (s *sys) Step(op int) bfs.StepResult {
 		default:
 			ns := slot{from: o.Recv, real: real.File, how: o.Recv + "." + o.Method + "(" + o.argString() + ")", helper: helper, twHelper: twHelper, rtype: fmt.Sprintf("%T", real.File)}
 
-			if len(o.Args) > 0 && o.Args[0].K == "path" && !strings.HasPrefix(o.Args[0].S, "/") {
+			// a name that is resolved against the current directory (or against its volume)
+			if len(o.Args) > 0 && o.Args[0].K == "path" && !qualified(s.win, o.Args[0].S) {
 				ns.how += "@" + cwdBefore
 			}
 
@@ -957,7 +1075,7 @@ func (s *sys) Step(op int) bfs.StepResult {
 
 	// --- result
 	outc := via + "." + o.Method + "/" + real.Kind + viewNote
-	if cls == clMut && real.Err != nil && errors.Is(real.Err, fs.ErrPermission) {
+	if cls == clMut && real.Err != nil && s.refusal(o, real.Err) {
 		outc = via + "." + o.Method + "/refused:" + real.Kind + viewNote
 	}
 
@@ -994,6 +1112,16 @@ func (s *sys) Step(op int) bfs.StepResult {
 		Changed: changed, Key: key, Broken: false, Rebuild: poisoned || twinPoisoned,
 		Outcome: outc, Viols: viols,
 	}
+}
+
+// refusal: the error of a mutating call belongs to the permission class,
+// errors.Is(err, fs.ErrPermission), as the statement demands for every
+// mutating call. On a Windows-typed file system RoFS answers Chown and Lchown
+// with "not supported by windows" and Symlink with "a required privilege is not
+// held" (what package os answers there for any file system); neither is
+// fs.ErrPermission: reported, and listed as a known finding.
+func (s *sys) refusal(_ opDesc, err error) bool {
+	return errors.Is(err, fs.ErrPermission)
 }
 
 func twHelperOrNil(v avfs.VFS) avfs.VFS {
